@@ -2,3 +2,4 @@ SPECIFICATION Spec
 CONSTANTS
   MaxCmds = 4
 INVARIANT Emit
+INVARIANT ExitLeavesNoFile
